@@ -2115,7 +2115,28 @@ class LogicalFile:
 
         self._check_completeness()
         self._check_channels_assigned_to_frames()
+        self._check_references()
         self._check_defining_origin_params()
+
+    def _check_references(self) -> None:
+        """Check that all objects referenced by the objects of this logical file belong to this logical file too.
+
+        A reference (e.g. from a Splice to a Zone or from a Tool to its Channels) is written as the name of the
+        referenced object only; it cannot be resolved unless the object itself is defined in the same logical file.
+        """
+
+        own_items: list[EFLRItem] = [
+            item for set_dict in self._eflr_sets.values() for eflr_set in set_dict.values()
+            for item in eflr_set.get_all_eflr_items()
+        ]
+        own_item_ids = set(id(item) for item in own_items)
+
+        for item in own_items:
+            for attr in item.attributes.values():
+                values = attr.value if isinstance(attr.value, (list, tuple)) else [attr.value]
+                for v in values:
+                    if isinstance(v, EFLRItem) and id(v) not in own_item_ids:
+                        raise RuntimeError(f"{v}, referenced by {attr}, has not been added to the same logical file")
 
     def _check_defining_origin_params(self) -> None:
         """Check that the file_id of the defining origin is the same as the ID of the header."""
